@@ -148,6 +148,30 @@ def pairwise_configs(rng):
     return out
 
 
+def history_triples(rng, n):
+    """runs of 3-4 consecutive calls on the SAME flight under the SAME configuration that differ in one thing only
+    (the fuel: with / without life-cycle datum and different EIs; or the APU), incl. A,B,A; and runs that flip one
+    option and flip it back.  The outcome of every call must be what the property says whatever ran before."""
+    out = []
+    for _ in range(n):
+        fi = rng.randint(0, 1)
+        cfg = c01.gen_config(rng)
+        ea = rng.choice(ENVS)
+        kind = rng.choice(['fuel', 'fuel', 'apu', 'option'])
+        if kind == 'fuel':
+            eb = {**ea, 'lifecycle_data': not ea['lifecycle_data']}
+            seq = [(cfg, ea), (cfg, eb), (cfg, ea)]
+        elif kind == 'apu':
+            eb = {**ea, 'apu': rng.choice([a for a in ('running', 'unknown', 'none') if a != ea['apu']])}
+            seq = [(cfg, ea), (cfg, eb), (cfg, ea)]
+        else:
+            opt = rng.choice(FIELDS)
+            cfg2 = {**cfg, opt: rng.choice([v for v in OPTIONS[opt] if v != cfg[opt]])}
+            seq = [(cfg, ea), (cfg2, ea), (cfg, ea), (cfg2, ea)]
+        out += [(fi, c, e) for c, e in seq]
+    return out
+
+
 def full_product():
     for vals in itertools.product(*[OPTIONS[f] for f in FIELDS]):
         yield dict(zip(FIELDS, vals))
@@ -158,8 +182,11 @@ def full_product():
 # ---------------------------------------------------------------------------
 
 def outcome(case, idx=0):
-    """-> dict(kind='value'|'refused'|'internal'|'other', ..., bad=[oracle violations])"""
-    r = c01.run_impl(case, idx)
+    """-> dict(kind='value'|'refused'|'internal'|'other', ..., bad=[oracle violations])
+    idx is the engine identity shown to the code: one per flight, so that the thousands of calls of a run present
+    the same engine under changing configurations / fuels / APUs, as an inventory run does; the Config singleton
+    is kept while the configuration does not change."""
+    r = c01.run_impl(case, idx, session=True)
     cfg = case['cfg']
     if 'value' in r:
         v = r['value']
@@ -192,8 +219,11 @@ def _worker(args):
     from harness import common
     common.setup_impl_env()
     out = []
-    for i, (fi, cfg, env) in enumerate(chunk):
-        out.append(outcome(make_case(flights[fi], cfg, env), i))
+    try:
+        for fi, cfg, env in chunk:
+            out.append(outcome(make_case(flights[fi], cfg, env), f'F{fi}'))
+    finally:
+        c01.reset_config()
     return out
 
 
@@ -302,7 +332,10 @@ def check_triples(chk: Check, state, flights, triples, parallel=False):
         with ProcessPoolExecutor(max_workers=nproc) as ex:
             outs = [o for part in ex.map(_worker, [(flights, None, ch) for ch in chunks]) for o in part]
     else:
-        outs = [outcome(make_case(flights[fi], cfg, env), i) for i, (fi, cfg, env) in enumerate(triples)]
+        try:
+            outs = [outcome(make_case(flights[fi], cfg, env), f'F{fi}') for fi, cfg, env in triples]
+        finally:
+            c01.reset_config()
     exprs = [coq_outcome_expr(state, cfg, env) for _, cfg, env in triples]
     models = chk.coq_eval(HEADER, exprs, shard=2000, label='outcomes')
     for (fi, cfg, env), o, m in zip(triples, outs, models):
@@ -337,7 +370,8 @@ def run(chk: Check):
                 'no APU; fuel with / without a life-cycle datum) on one simulated trajectory (LegacyBuilder, sample '
                 'performance model, BOS-LAX) and one synthetic 6-point trajectory; quick = pairwise-covering set (every '
                 'pair of option values, on the default and on a random background) + 1500 random configurations; thorough '
-                '= the complete 41 472 product; non-trivial = not the default configuration')
+                '= the complete 41 472 product; plus history runs: 3-4 consecutive calls in one process on the same flight / engine '
+                'that differ only in the fuel, the APU, or one option flipped and flipped back; non-trivial = not the default configuration')
     chk.trusted += ['translator/c11_extract.py, translator/c01_extract.py (shape-specific, fail-closed)',
                     'harness/c11.py: outcome classification, key-set comparison; harness/c01.py: balance oracle',
                     'the Coq sweep covers the complete product for the MODEL; the implementation is sampled (quick) or '
@@ -372,6 +406,7 @@ def run(chk: Check):
                 if key not in seen:
                     seen.add(key)
                     triples.append((fi, cfg, env))
+    triples += history_triples(rng, chk.n(250, 2500))
     chk.notes['configurations_distinct'] = len({cfg_key(c) for _, c, _ in triples})
     check_triples(chk, state, flights, triples, parallel=(chk.tier == 'thorough'))
 
